@@ -1139,7 +1139,9 @@ func checkC17(c *Ctx) {
 		oa, ob := outcome(evalFresh(c.style(true).Render(A), m)), outcome(evalFresh(c.style(true).Render(B), m))
 		for _, lw := range laws {
 			lt, rt := c.style(c.R.Chance(1, 2)).Render(lw.l), c.style(c.R.Chance(1, 2)).Render(lw.r)
-			lo, ro := evalFresh(lt, m), evalFresh(rt, m)
+			// one side now and then on an evaluator that has already processed other objects (failing ones among them): the
+			// laws are about the rules, not about the history of the evaluator that happens to evaluate a side
+			lo, ro := evalOn(lt, m, poisonObjects(c.R, lw.l)), evalFresh(rt, m)
 			c.Res.Evaluations++
 			c.count("law_" + lw.name)
 			if oa != ob {
